@@ -61,6 +61,7 @@ class Child(object):
         self.result = None
         self.buf = b""
         self.pending = None
+        self.pending_detail = ""
         self.steps = 0
         self.trace = []          # the operations granted so far ("<n> <operation>")
 
@@ -80,7 +81,9 @@ class Child(object):
             self.done = True
             self._collect()
         else:
-            self.pending = line.decode()
+            parts_ = line.decode().split(" ", 2)
+            self.pending = " ".join(parts_[:2])                       # "<n> <operation>"
+            self.pending_detail = parts_[2] if len(parts_) > 2 else ""   # what it is applied to
 
     def grant(self):
         self.wait_request()
@@ -148,15 +151,16 @@ def run_schedule(fns, base, segments, check_boundary):
     return [k.result for k in kids], [k.steps for k in kids], problems
 
 
-def advance_until(kid, opnames, nth=1):
-    """grant operations until the process is about to perform the nth operation whose name is in opnames (or finishes)"""
+def advance_until(kid, opnames, nth=1, contains=None):
+    """grant operations until the process is about to perform the nth operation whose name is in opnames (and whose description holds
+    `contains`, if given) - or finishes"""
     seen = 0
     while True:
         kid.wait_request()
         if kid.done:
             return False
         opn = kid.pending.split(" ", 1)[-1] if kid.pending else None
-        if opn in opnames:
+        if opn in opnames and (contains is None or contains in (kid.pending_detail or "")):
             seen += 1
             if seen >= nth:
                 return True
@@ -587,6 +591,55 @@ def run(ctx):
                     res.violations.append({"what": bad, "input": {"scenario": "nested keeps, second keeper while the first is stopped", "store": variant, "stop_after": k,
                                                                     "first_keeper_operations": first.trace}, "kf": None})
                     break
+    finally:
+        shutil.rmtree(tmp, ignore_errors=True)
+    # diagnostics switched on (the logger of the library at DEBUG level, as someone hunting a problem would have it): a process opens
+    # the store and keeps the pipeline while a writer is about to publish a blob / its metadata. The opener is stopped whenever it is
+    # about to ask about a file it has seen in a directory listing (a temporary file of the writer may be gone by then); nobody fails
+    tmp = tempfile.mkdtemp(prefix="ddsverif_c07d_")
+    try:
+        ws = os.path.join(tmp, "ws")
+        os.makedirs(ws)
+        dm = "c7d_%d" % os.getpid()
+        with open(os.path.join(ws, dm + ".py"), "w") as fh:
+            fh.write("import dds\n\ndef g():\n    return 'value-of-g'\n\ndef f0():\n    return dds.keep('/w/d', g)\n")
+
+        def dworker(d, debug):
+            inner = evaluate(ws, dm, dm + "_none", d + "/internal", d + "/data", None)
+
+            def fn():
+                if debug:
+                    import logging
+                    logging.getLogger("dds").setLevel(logging.DEBUG)
+                    logging.getLogger("dds").addHandler(logging.NullHandler())
+                    logging.getLogger().setLevel(logging.DEBUG)
+                return inner()
+            return fn
+        for nth in (1, 2, 3):
+            d = os.path.join(tmp, "run%d" % nth)
+            os.makedirs(d)
+            writer, opener = Child(dworker(d, False), d), Child(dworker(d, True), d)
+            # the writer is stopped right before it moves a temporary file in place (its blob, then its metadata, then the link)
+            advance_until(writer, ("replace", "rename"), nth=nth)
+            # the opener runs until it is about to ask about one of the writer's temporary files (or to the end)
+            stopped = advance_until(opener, ("stat",), contains=".tmp")
+            while writer.grant():
+                pass
+            while opener.grant():
+                pass
+            res.evaluations += 2
+            res.count("scenario_debug_logging_opener")
+            res.nontrivial("debug logging opener %d" % nth)
+            bad = None
+            for who, kid in (("the writer", writer), ("the process that opened the store with debug logging", opener)):
+                if kid.result is None or kid.result[0] != "ok" or kid.result[1] != "value-of-g":
+                    bad = "%s returned %r (the writer was stopped before its move number %d; the opener %s)" % (
+                        who, kid.result, nth, "was stopped before asking about a temporary file it had listed" if stopped else "ran to the end")
+                    break
+            if bad:
+                res.violations.append({"what": bad, "input": {"scenario": "a process with debug logging opens the store while a writer publishes", "writer_stopped_before_move": nth,
+                                                                "opener_operations": opener.trace}, "kf": None})
+            shutil.rmtree(d, ignore_errors=True)
     finally:
         shutil.rmtree(tmp, ignore_errors=True)
     # long-lived processes taking turns on one store (no preemption needed): A keeps version 1, B keeps version 2 of the same
